@@ -44,6 +44,8 @@ POSITIONS = [
     ('g-nonlocal', 'G', 'nonlocal f_outer\nf_outer={L}\nobs(f_outer)'),
     ('c-attr', 'C', 'attr={L}'),
     ('c-slots', 'C', '__slots__=({L},)'),
+    ('c-slots-annotated', 'C', '__slots__:tuple=({L},)'), ('c-slots-in-if', 'C', 'if obs:\n __slots__=({L},)'),
+    ('c-slots-in-try', 'C', 'try:\n __slots__=({L},)\nfinally:\n pass'),
     ('c-doc-after', 'C', "'class doc'\nattr2={L}"),
     ('c-user-A', 'C', "A='user A'\nattr3={L}"), ('c-user-_A', 'C', "_A='user _A'\nattr4={L}"), ('c-user-A-read', 'C', "A='user A'\nobs(A)\nattr5={L}"),
     ('f-user-A', 'F', "A='user A'\nobs(A)\nf_v2={L}"), ('m-user-B', 'M', "B='user B'\nobs(B)\nm_v2={L}"),
